@@ -1183,6 +1183,12 @@ orc_compiler_global_reg_alloc (OrcCompiler *compiler)
         }
         if (var->need_offset_reg) {
           var->ptr_offset = orc_compiler_allocate_register (compiler, FALSE);
+          /* the resampling loads need both the pointer and the offset in
+           * registers, a pointer kept in the executor is not enough */
+          if ((!var->ptr_register || !var->ptr_offset) && !compiler->error) {
+            orc_compiler_error (compiler, "register overflow for gp register");
+            compiler->result = ORC_COMPILE_RESULT_UNKNOWN_COMPILE;
+          }
         }
         break;
       case ORC_VAR_TYPE_DEST:
